@@ -71,13 +71,18 @@ def make_cases(rng, tier, budget):
     # the version of a function that failed last time (caught by a cached caller) is bumped
     for _ in range((12 if tier == "quick" else 120) * budget):
         c = g.template_case()
-        names = [n for n in c["funcs"] if n in ("outerfail", "inner", "inner_file", "outer_file", "wrap", "probe")]
+        names = [n for n in c["funcs"] if n in ("outerfail", "inner", "inner_file", "outer_file", "wrap", "probe")] or sorted(c["funcs"])
         f = rng.choice(names)
         root = [s for s in c["history"] if s[0] == "build"][0][2]
+        lead = []
+        for s in c["history"]:
+            if s[0] != "mutate":
+                break
+            lead.append(s)
         v_old, v_new = rng.choice(VERS), rng.choice(VERS)
         def vm2(v):
             return {} if v == "ABSENT" else {f: copy.deepcopy(v)}
-        c["history"] = [["build", vm2(v_old), root], ["build", vm2(v_new), root], ["build", vm2(v_new), root]]
+        c["history"] = lead + [["build", vm2(v_old), root], ["build", vm2(v_new), root], ["build", vm2(v_new), root]]
         c["tag"] = {"f": f, "old": v_old, "new": v_new}
         out.append(c)
     return out
